@@ -4,6 +4,7 @@ use vkit::report::{Args, Report};
 mod c02;
 mod c06;
 mod c09;
+mod c13;
 mod smoke;
 
 fn main() {
@@ -12,6 +13,7 @@ fn main() {
     let args = Args::parse();
     let mut rep = Report::new(&args);
     match args.prop.to_lowercase().as_str() {
+        "c13" => c13::run(&args, &mut rep),
         "smoke" => smoke::run(&args, &mut rep),
         "c02" => c02::run(&args, &mut rep),
         "c06" => c06::run(&args, &mut rep),
